@@ -262,7 +262,7 @@ def fallback_handlers(prog: Program, res: Results, closure, rid: str = "R-C08-6"
                 if always:
                     r.ob(True, {"site": k, "catches": handler_names(h), "kind": "converts and re-raises"})
                     continue
-                key = (k, tuple(sorted(str(x) for x in handler_names(h))))
+                key = (prog.reviewed_key(k), tuple(sorted(str(x) for x in handler_names(h))))
                 seen[key] = seen.get(key, 0) + 1
                 allowed, why = REVIEWED_FALLBACKS.get(key, (0, None))
                 ok = seen[key] <= allowed
